@@ -57,7 +57,7 @@ type c18Write struct {
 	DstIP    obs.Hex `json:"dst_ip"`
 	DstPort  int     `json:"dst_port"`
 	Dst16    bool    `json:"dst_16byte"`
-	UseMaker bool    `json:"client4_maker"` // check client4.MakeRawUDPPacket instead (fields only)
+	UseMaker bool    `json:"client4_maker"`   // check client4.MakeRawUDPPacket instead (fields only)
 	Steer    int     `json:"steer,omitempty"` // >0: two payload octets are set so that the UDP checksum computes to c18Targets[Steer-1]
 }
 
